@@ -32,7 +32,10 @@ RESULT_TABLE = {
                            "Unsatisfiable": UNSAT_OK, "Unknown": {"Ready"}},
     "IteratedSolution": {"Solution": {"Ready"}, "Finished": UNSAT_OK,
                          "Unsatisfiable": UNSAT_OK, "Unknown": {"Ready"}},
-    "Result": {"Ok": {"Ready"}, "Err": {"Infeasible", "Conflict"}},
+    # Ok with a recorded root conflict (add_nogood finds the conflict by propagation and still
+    # returns Ok — the D13 path) keeps every later answer right: the conflict is recorded.  It is a
+    # proof-logging defect and is reported under C06-P4, not here.
+    "Result": {"Ok": {"Ready", "Conflict"}, "Err": {"Infeasible", "Conflict"}},
 }
 
 
